@@ -67,6 +67,8 @@ type consumerGroup struct {
 	closed    chan none
 	closeOnce sync.Once
 
+	errorsLock sync.RWMutex // handleError (read side) against close(c.errors) (write side)
+
 	userData []byte
 }
 
@@ -130,6 +132,9 @@ func (c *consumerGroup) Close() (err error) {
 
 		// drain errors
 		go func() {
+			// wait for everybody who is inside handleError (past its closed check)
+			c.errorsLock.Lock()
+			defer c.errorsLock.Unlock()
 			close(c.errors)
 		}()
 		for e := range c.errors {
@@ -426,6 +431,11 @@ func (c *consumerGroup) handleError(err error, topic string, partition int32) {
 		Logger.Println(err)
 		return
 	}
+
+	// the check and the send below must not be separated by close(c.errors): error forwarders
+	// (range pom.Errors() / range claim.Errors()) call this without anything ordering them against Close
+	c.errorsLock.RLock()
+	defer c.errorsLock.RUnlock()
 
 	select {
 	case <-c.closed:
